@@ -94,6 +94,31 @@ pub fn run<W: Write>(_seed: u64, thorough: bool, w: &mut W) {
             }
         }
     }
+    // sizes interleaved on one thread (seed C19-g: a per-thread pool of spare random bits that
+    // goes wrong only when calls of different small sizes alternate): a fixed pseudo-random order
+    // of sizes 0..=8, k draws of each size in all, analysed per size as above
+    for (label, f) in [("Lut", dyn_draws as fn(usize, usize) -> Vec<Tab>), ("LutN", stat_draws as fn(usize, usize) -> Vec<Tab>)] {
+        let mut per: Vec<Vec<Tab>> = vec![Vec::new(); 9];
+        let mut order: Vec<usize> = Vec::new();
+        let mut st = _seed ^ 0x5851_f42d_4c95_7f2d;
+        for _ in 0..k {
+            // each round: the nine sizes in an order that changes from round to round
+            let mut sizes: Vec<usize> = (0..9).collect();
+            for i in (1..sizes.len()).rev() {
+                st = st.wrapping_mul(6364136223846793005).wrapping_add(1442695040888963407);
+                sizes.swap(i, ((st >> 33) as usize) % (i + 1));
+            }
+            order.extend(sizes);
+        }
+        for n in order {
+            per[n].extend(f(n, 1));
+        }
+        for (n, ds) in per.iter().enumerate() {
+            let (a, b) = analyse(&format!("{} sizes interleaved", label), n, ds, &mut fails);
+            total += a;
+            distinct_total += b;
+        }
+    }
     for f in &fails {
         writeln!(w, "FAIL random :: {}", f).unwrap();
     }
